@@ -1013,7 +1013,9 @@ func handleState(fr *FrameHeader, strm *Stream) {
 	case StreamStateReserved:
 		// TODO: ...
 	case StreamStateOpen:
-		if fr.Flags().Has(FlagEndStream) {
+		// END_STREAM is only defined for DATA and HEADERS. The same bit on any
+		// other frame is ACK or nothing at all, and must not end the request.
+		if (fr.Type() == FrameData || fr.Type() == FrameHeaders) && fr.Flags().Has(FlagEndStream) {
 			strm.SetState(StreamStateHalfClosed)
 		} else if fr.Type() == FrameResetStream {
 			strm.SetState(StreamStateClosed)
